@@ -260,7 +260,8 @@ def lastIsRet : Stmt → Bool
   | .seq _ b => lastIsRet b
   | _ => false
 
-/-- `pad n`: bytes that exist only in the long layout (an INITSLOT 0,0 that writeJumps removes). -/
+/-- INITSLOT; `INITSLOT 0,0` is emitted by convertFuncDecl and removed by writeJumps (codegen.go:2916-2923): it is
+    represented by a NOP item that occupies 3 bytes in the long layout and none in the final one. -/
 def initSlotItem (locals args : Nat) : Item :=
   if locals == 0 && args == 0 then .ins .nop else .ins (.initSlot locals args)
 
